@@ -139,12 +139,20 @@ def run_checks(pid, sid, patch, res, dst):
     try:
         props = [json.loads(l)["id"] for l in open(os.path.join(VERIF, "properties.jsonl"))]
         env = dict(os.environ, VERIF_OUT="/tmp/seedverify_out")
-        for q in props:
+        import concurrent.futures
+
+        def one(q):
             r = subprocess.run([os.path.join(VERIF, "check"), q, "--tier", "quick"], stdout=subprocess.PIPE, stderr=subprocess.STDOUT, text=True, env=env)
             rules = [l.strip()[5:].split(" at ")[0].split(": ")[0] for l in r.stdout.splitlines() if l.startswith("  rule ")]
-            if r.returncode == 1:
+            return q, r.returncode, rules
+        # the first check extracts the facts of the patched tree; the others reuse them and run side by side
+        results = [one(props[0])]
+        with concurrent.futures.ThreadPoolExecutor(int(os.environ.get("SEED_CHECK_JOBS", "8"))) as ex:
+            results += list(ex.map(one, props[1:]))
+        for q, rc, rules in results:
+            if rc == 1:
                 fired[q] = rules[:6]
-            elif r.returncode == 2:
+            elif rc == 2:
                 fired[q] = ["<exit 2>"]
     finally:
         subprocess.check_call(["git", "-C", REPO, "checkout", "--", "."])
